@@ -376,10 +376,10 @@ def check_apply(case):
 def sync_cases(draw):
     flavour = draw(st.sampled_from(["def", "async", "partial", "obj", "obj-awaitable", "def-mixed", "def-mixed", "def-mixed", "class",
                                     "class-async-call", "method", "async-method", "lambda-coro", "attribute", "wrapped-facade",
-                                    "asyncgen-fn", "asyncgen-partial"]))
+                                    "asyncgen-fn", "asyncgen-partial", "partial-kw"]))
     if flavour in ("asyncgen-fn", "asyncgen-partial"):
         kinds = st.just("plain")
-    elif flavour in ("def", "class", "class-async-call", "method", "attribute", "wrapped-facade"):
+    elif flavour in ("partial-kw", "def", "class", "class-async-call", "method", "attribute", "wrapped-facade"):
         kinds = st.sampled_from(["plain", "raise"])
     elif flavour == "def-mixed":
         kinds = st.sampled_from(["plain", "coroutine", "object", "raise", "suspending", "futurelike",
@@ -489,7 +489,20 @@ def check_sync(case):
         k, kind = next(calls)
         yield k
 
+    def kwfn(arg, mode="default"):
+        k, kind = next(calls)
+        if kind == "raise":
+            errors[k] = exc_type(f"call {k}")
+            raise errors[k]
+        values[k] = ("called-with-mode", mode, k)
+        if mode != "call":
+            values[k] = ("WRONG: the keyword given at call time did not win over the partial's", mode)
+            return ("mode", mode)
+        return values[k]
+
     target = {"attribute": None, "wrapped-facade": facade, "asyncgen-fn": agen_fn,
+              # a partial with a frozen keyword, called with the same keyword: the call's value wins (functools.partial)
+              "partial-kw": functools.partial(kwfn, mode="frozen"),
               "asyncgen-partial": functools.partial(agen_fn), "class": Made, "class-async-call": MadeAsyncCall, "method": holder.method,
               "async-method": holder.amethod, "lambda-coro": lambda arg: coro_fn(arg),
               "def": plain_def, "def-mixed": plain_def, "async": coro_fn,
@@ -510,7 +523,7 @@ def check_sync(case):
         raise Violation("C19/sync/coroutine-function-not-returned-unchanged", flavour)
     for k, kind in enumerate(case["calls"]):
         try:
-            awaitable = wrapper("arg")
+            awaitable = wrapper("arg") if flavour != "partial-kw" else wrapper("arg", mode="call")
         except Exception as exc:
             raise Violation("C19/sync/calling-the-wrapper-raised", f"{case} call {k}: {exc!r}") from None
         if not inspect.isawaitable(awaitable):
